@@ -115,15 +115,16 @@ class Ctx:
             for t, fields in r.tuples:
                 if t == tag and len(fields) >= 2:
                     tid, v = fields[0], fields[1]
-                    if got.get(tid) != 'ok':
-                        # prefer ok; among failures prefer the one that got furthest (judge encodes "l=<n>")
-                        if v == 'ok' or tid not in got or _progress(v) > _progress(got[tid]):
-                            got[tid] = v
+                    prog = fields[2] if len(fields) > 2 and isinstance(fields[2], int) else -1
+                    cur = got.get(tid)
+                    # prefer ok; among failing runs prefer the one that consumed the longest prefix
+                    if cur is None or (cur[0] != 'ok' and (v == 'ok' or prog > cur[1])):
+                        got[tid] = (v, prog)
             for i in range(len(part)):
                 if i + 1 not in got:
                     raise MachineryError('judge %s printed no verdict for trace %d (of %d)\n%s'
                                          % (module, i + 1, len(part), r.out[-3000:]))
-                verdicts.append(got[i + 1])
+                verdicts.append(got[i + 1][0] if got[i + 1][0] == 'ok' else '%s@%d' % got[i + 1])
             os.unlink(path)
         self.traces_validated += len(traces)
         return verdicts
@@ -135,6 +136,10 @@ class Ctx:
             self.nontrivial.add(key if key is not None else digest(case))
             if case is not None and len(self.samples) < self.max_samples:
                 self.samples.append(case)
+
+    def progress(self, msg):
+        print('[%6.1fs] %s %s' % (time.time() - self.t0, self.pid, msg), file=sys.stderr)
+        sys.stderr.flush()
 
     def sample(self, case):
         if len(self.samples) < self.max_samples:
@@ -157,9 +162,10 @@ class Ctx:
                 json.dump({'property': self.pid, 'clause': clause, 'what': what, 'case': case,
                            'signature': signature}, f, indent=1, default=repr)
             self.violations.append({'clause': clause, 'what': what, 'replay': path})
-            print('VIOLATION property=%s replay=%s' % (self.pid, path))
-            print('  clause=%s %s' % (clause, what))
-            sys.stdout.flush()
+            if len(self.violations) <= 8:
+                print('VIOLATION property=%s replay=%s' % (self.pid, path))
+                print('  clause=%s %s' % (clause, str(what)[:300]))
+                sys.stdout.flush()
         else:
             self.violations.append({'clause': clause, 'what': what, 'replay': None})
         return True
@@ -177,6 +183,11 @@ class Ctx:
     def finish(self):
         import shutil
         shutil.rmtree(self.scratch, ignore_errors=True)
+        if len(self.violations) > 8:
+            byc = {}
+            for v in self.violations:
+                byc[v['clause']] = byc.get(v['clause'], 0) + 1
+            print('... %d violations in total, by clause: %s' % (len(self.violations), byc))
         for k, (rec, n) in sorted(self.known_hit.items()):
             print('KNOWN-FINDING: property=%s %s (%d cases)' % (self.pid, rec.get('what', ''), n))
         cov = {
